@@ -314,6 +314,11 @@ pub fn seed_actor_thread() {
         seed_thread(seed);
     }
 }
+/// True while the harness has prepared a lockstep `bind` that has not happened yet.
+pub fn lockstep_bind_pending() -> bool {
+    let n = net().lock().unwrap();
+    n.next_ip.is_some() && !n.next_direct
+}
 fn n_next_ip_is_set() -> bool {
     net().lock().unwrap().next_ip.is_some()
 }
